@@ -52,14 +52,10 @@ func c13Body() func(h []dsim.Rec) {
 	e.start = time.Now()
 	unencodable := dsim.Choose(5) >= 3
 
-	kinds := []int{epCustom, epTCPServer, epTCPClient, epSerial, epUDPServer}
+	kinds := []int{epCustom, epTCPServer, epTCPClient, epSerial, epUDPServer, epUDPClient, epBroadcast}
 	neps := 2 + dsim.Choose(depth(2, 4))
 	for i := 0; i < neps; i++ {
-		k := kinds[dsim.Choose(len(kinds))]
-		if i == 0 {
-			k = kinds[dsim.Choose(4)] // at least one stream endpoint (only those can be made sick)
-		}
-		e.addEndpoint(k)
+		e.addEndpoint(kinds[dsim.Choose(len(kinds))])
 	}
 	fl := &flow{e: e, reserved: map[*link]int{}, received: map[*link]int{}, parsed: map[*link]int{}}
 	var stable []*link
@@ -69,9 +65,24 @@ func c13Body() func(h []dsim.Rec) {
 		e.mu.Unlock()
 	}
 	expect := 0
+	needHello := false
 	for _, ep := range e.cfg.eps {
 		ep := ep
 		switch ep.kind {
+		case epUDPClient, epBroadcast:
+			// the peer learns the node's socket from the first datagram the node sends
+			first := true
+			if _, err := e.packetPeer(ep, func(l *link) {
+				if first {
+					first = false
+					addStable(l)
+				}
+			}); err != nil {
+				dsim.Failf("harness", "peer packet listen: %v", err)
+				return nil
+			}
+			expect++
+			needHello = true
 		case epCustom:
 			addStable(e.customLink(ep))
 			expect++
@@ -136,6 +147,22 @@ func c13Body() func(h []dsim.Rec) {
 			addStable(l)
 		}
 	}
+	if needHello {
+		// with heartbeats off nothing leaves the node by itself: the application says hello (a
+		// forwarded frame that no oracle counts) until every datagram peer has heard the node
+		dsim.Go("hello", func() {
+			for i := 0; i < 100; i++ {
+				e.mu.Lock()
+				ns := len(stable)
+				e.mu.Unlock()
+				if ns >= expect {
+					return
+				}
+				e.node.WriteFrameAll(helloFrame(e.cfg.version == 2, uint32(i))) //nolint
+				dsim.Sleep(200 * time.Millisecond)
+			}
+		})
+	}
 	deadline := e.now() + 30*time.Second
 	for {
 		n := 0
@@ -174,28 +201,38 @@ func c13Body() func(h []dsim.Rec) {
 		stableCh = append(stableCh, chOf[l])
 	}
 
-	// choose the sick channels (stream transports only), keep at least one healthy
+	// choose the sick channels, keep at least one healthy (a datagram socket never blocks: its
+	// writes can only fail)
 	sick := map[*link]int{}
-	var streamLinks []*link
-	for _, l := range stable {
-		if l.conn != nil {
-			streamLinks = append(streamLinks, l)
-		}
-	}
+	streamLinks := append([]*link(nil), stable...)
 	nsick := 0
-	if len(stable) > 1 && len(streamLinks) > 0 {
+	if len(stable) > 1 {
 		nsick = 1 + dsim.Choose(len(streamLinks))
 		if nsick >= len(stable) {
 			nsick = len(stable) - 1
 		}
 	}
 	unblockAt := map[*link]time.Duration{}
+	dgFault := map[*link]*dgramFault{}
 	for i := 0; i < nsick; i++ {
 		l := streamLinks[(i+dsim.Choose(len(streamLinks)))%len(streamLinks)]
 		if sick[l] != sickNone {
 			continue
 		}
 		kind := 1 + dsim.Choose(4)
+		if l.conn == nil {
+			kind = sickFailOnce + dsim.Choose(2)
+			werr := error(errInjectedWrite)
+			if dsim.Choose(2) == 1 {
+				werr = &net.OpError{Op: "write", Net: "udp", Err: errInjectedWrite}
+			}
+			sick[l] = kind
+			dgFault[l] = &dgramFault{at: 1 + dsim.Choose(30), err: werr, once: kind == sickFailOnce}
+			dsim.Record("sick", l.name+" "+sickNames[kind], nil, int64(l.id), int64(kind), int64(dgFault[l].at))
+			count("fault:plan-" + sickNames[kind])
+			count("fault:plan-datagram-write-error")
+			continue
+		}
 		sick[l] = kind
 		// the shape a failing socket gives its error: a bare error or a net.Error that is not a timeout
 		werr := error(errInjectedWrite)
@@ -238,11 +275,56 @@ func c13Body() func(h []dsim.Rec) {
 					}
 				}
 			}
-		} else {
+		} else if dgFault[l] == nil {
 			e.mu.Lock()
 			l.onData = func() { fl.noteRx(l) }
 			e.mu.Unlock()
 		}
+	}
+	// node-side datagram sockets: count the write attempts of tagged items on sick links and fail
+	// the planned ones
+	e.w.UDPWriteHook = func(local, remote int, p []byte) error {
+		var l *link
+		for _, c := range stable {
+			if !c.datagram {
+				continue
+			}
+			switch c.ep.kind {
+			case epUDPServer:
+				if c.uconn != nil && c.uconn.Port() == remote && c.ep.port == local {
+					l = c
+				}
+			case epUDPClient:
+				if c.nodePort == local {
+					l = c
+				}
+			case epBroadcast:
+				if c.ep.port == local {
+					l = c
+				}
+			}
+		}
+		if l == nil || dgFault[l] == nil {
+			return nil
+		}
+		df := dgFault[l]
+		e.mu.Lock()
+		df.n++
+		k := df.n
+		if f, n, err := ref.Decode(p); err == nil && n == len(p) {
+			if wr, _, _, ok := tagOf(f); ok && wr < 100 {
+				fl.received[l]++
+			}
+		}
+		fail := k == df.at || (k > df.at && !df.once)
+		if fail && df.faultAt == 0 {
+			df.faultAt = e.now() + 1
+		}
+		e.mu.Unlock()
+		if fail {
+			return df.err
+		}
+		return nil
 	}
 
 	d := &driverSet{e: e}
@@ -456,6 +538,15 @@ func c13Body() func(h []dsim.Rec) {
 			}
 		}
 	}
+}
+
+// dgramFault is the write-fault plan of a datagram link (k-th write of the node-side socket).
+type dgramFault struct {
+	at      int
+	err     error
+	once    bool
+	n       int
+	faultAt time.Duration
 }
 
 // conn0 returns the node-side stream connection of a link (a zero Conn for datagram links).
